@@ -175,6 +175,9 @@ static void gen_case(long idx)
 	if ((cls == 8 || cls == 9) && vh_below(&rng, 12)) cls = (int)vh_below(&rng, 8);
 	int kidx = (int)vh_below(&rng, NKEYS + 1) - 1;	/* -1: alg none */
 	char *tok = NULL;
+	/* the first 132 cases are fixed: every key's own alg name (and "none") followed by 1..4096 filler characters, correctly signed */
+	int det = idx < 12 * (NKEYS + 1);
+	if (det) { cls = 15; kidx = (int)(idx % (NKEYS + 1)) - 1; }
 	gen_class[cls]++;
 	switch (cls) {
 	case 0:	/* plain valid */
@@ -291,14 +294,21 @@ static void gen_case(long idx)
 	case 15: { /* header alg differs from key / unknown but well formed */
 		static const char *ALGS[] = { "none", "HS256", "HS384", "RS256", "ES256", "ES384", "EdDSA", "PS256", "ES256K", "HS512" };
 		char hdr[6000];
-		if (vh_below(&rng, 4) == 0) {
+		if (!det && vh_below(&rng, 4) == 0) {
 			/* unknown alg names of many lengths (they end up in an error message of bounded size) */
 			static const int LEN[] = { 3, 100, 200, 230, 238, 239, 240, 241, 242, 250, 254, 255, 256, 257, 300, 1000, 5000 };
 			int n = LEN[vh_below(&rng, 17)], o = sprintf(hdr, "{\"alg\":\"");
 			memset(hdr + o, "AZx%"[vh_below(&rng, 4)], (size_t)n); strcpy(hdr + o + n, "\"}");
+		} else if (det || vh_below(&rng, 3) == 0) {
+			/* a known name followed by filler: unknown names that an implementation folding or narrowing a length (mod 256, mod 65536 does
+			 * not fit a header here) would take for the known one */
+			static const int FL[] = { 1, 2, 255, 256, 257, 511, 512, 513, 768, 1024, 2048, 4096 };
+			int n = FL[det ? (idx / (NKEYS + 1)) % 12 : (long)vh_below(&rng, 12)];
+			int o = sprintf(hdr, "{\"alg\":\"%s", det ? vh_alg_name(kidx < 0 ? 0 : KALG[kidx]) : ALGS[vh_below(&rng, 10)]);
+			memset(hdr + o, "AZx\x01"[vh_below(&rng, 3)], (size_t)n); strcpy(hdr + o + n, "\"}");
 		} else
 			snprintf(hdr, sizeof(hdr), "{\"alg\":\"%s\"}", ALGS[vh_below(&rng, 10)]);
-		{ const char *pl = PAYLOADS[vh_below(&rng, 13)]; tok = token_from_parts(hdr, strlen(hdr), pl, strlen(pl), kidx); }
+		{ const char *pl = PAYLOADS[det ? 0 : vh_below(&rng, 13)]; tok = token_from_parts(hdr, strlen(hdr), pl, strlen(pl), kidx); }
 		break;
 	}
 	case 16: { /* length classes of segments: 1,2,3 mod 4 by cutting chars off each segment */
